@@ -13,10 +13,16 @@
 //	raw   <hexbytes>                                        garbage on the bare tcp port
 //	ping  <cid> <ts> <key> <exp>                            Ping on an established control connection
 //	nproxy <cid> <name>                                     NewProxy (stcp) on an established control connection
+//	tproxy <cid> <name>                                     NewProxy (tcp, remote port 0) on an established control connection
+//	uconn <name>                                            a user connection to the port of tcp proxy <name>: frps hands it to a
+//	                                                        pooled work connection; result e1:<cid of that work connection> when
+//	                                                        the bytes came back through it, e0 when nothing served it
 //	drop  <cid>                                             the peer closes the connection
 //	dump                                                    the server's session table (verif hook)
 //
 // <exp> is md5(token ++ decimal(ts)) computed HERE with crypto/md5 (not with frp's util.GetAuthKey).
+// <tr> = tcp | tls | ws | kcp | quic (streams of ONE underlying connection per transport) | tcpn (a NEW tcp connection
+// and yamux session for this one attempt) | int (the internal listener).
 package main
 
 import (
@@ -30,6 +36,7 @@ import (
 	"math/rand"
 	"net"
 	"os"
+	"sort"
 	"strconv"
 	"strings"
 	"time"
@@ -70,6 +77,21 @@ type peerConn struct {
 	rw          io.ReadWriter
 	runID       string
 	established bool
+	pooled      bool // a work connection frps put into a session's pool
+}
+
+func (pc *peerConn) close() { pc.c.Close() }
+
+// transport tcpn: the connection owns its connector (one tcp connection + yamux session per attempt)
+type peerOwnConn struct {
+	net.Conn
+	own client.Connector
+}
+
+func (c peerOwnConn) Close() error {
+	err := c.Conn.Close()
+	c.own.Close()
+	return err
 }
 
 type peerStubOIDC struct{}
@@ -98,6 +120,11 @@ type peerState struct {
 	lastPing   map[string]int64
 	lp         map[string]int
 	transports []string
+	tports     map[string]int // tcp proxy name -> remote port frps allocated
+	toks       map[string]string // O / C episodes: minted raw tokens by id
+	shortExp   int64             // O episodes: the latest exp of a short-lived token minted so far
+	clock      *peerClock        // C episodes: the clock injected into the go-oidc verifier
+
 }
 
 var peerSt = &peerState{}
@@ -128,7 +155,7 @@ func peerFreePorts() (int, int, int) {
 
 func (st *peerState) stop() {
 	for _, pc := range st.conns {
-		pc.c.Close()
+		pc.close()
 	}
 	for _, c := range st.connectors {
 		c.Close()
@@ -150,6 +177,13 @@ func (st *peerState) start(method string, hb, wc bool, extra ...string) {
 	if method == "S" {
 		gw = newPeerGateway(len(extra) > 0 && peerB(extra[0]))
 	}
+	var clock *peerClock
+	if method == "O" || method == "C" {
+		if method == "C" {
+			clock = &peerClock{sec: 1_800_000_000}
+		}
+		peerIdP().set("k1", clock)
+	}
 	var lastErr error
 	for attempt := 0; attempt < 5; attempt++ {
 		cfg := &v1.ServerConfig{}
@@ -157,7 +191,7 @@ func (st *peerState) start(method string, hb, wc bool, extra ...string) {
 		cfg.BindPort, cfg.KCPBindPort, cfg.QUICBindPort = peerFreePorts()
 		cfg.Auth.Method = v1.AuthMethodToken
 		cfg.Auth.Token = peerToken
-		if method == "o" || method == "O" {
+		if method == "o" || method == "O" || method == "C" {
 			cfg.Auth.Token = ""
 		}
 		if method == "O" {
@@ -181,6 +215,7 @@ func (st *peerState) start(method string, hb, wc bool, extra ...string) {
 			cfg.Auth.AdditionalScopes = append(cfg.Auth.AdditionalScopes, v1.AuthScopeNewWorkConns)
 		}
 		cfg.Transport.HeartbeatTimeout = 90
+		cfg.UserConnTimeout = 1 // a user connection that finds the pool empty gives up after 1 s
 		cfg.Complete()
 		svr, err := server.NewService(cfg)
 		if err != nil {
@@ -189,6 +224,26 @@ func (st *peerState) start(method string, hb, wc bool, extra ...string) {
 		}
 		if method == "o" {
 			svr.VerifAuthSetVerifier(auth.NewOidcAuthVerifier(cfg.Auth.AdditionalScopes, peerStubOIDC{}))
+		}
+		if method == "C" {
+			// the verifier auth.NewTokenVerifier builds (pkg/auth/oidc.go) with ONE difference: oidc.Config.Now is the
+			// harness's clock.  Discovery, remote key set and every check are go-oidc's; the consumer around it
+			// (subjects, scopes) is frp's auth.NewOidcAuthVerifier.
+			provider, err := oidc.NewProvider(context.Background(), peerIdP().issuer)
+			if err != nil {
+				svr.Close()
+				lastErr = err
+				continue
+			}
+			aud := unhx(extra[0])
+			v := provider.Verifier(&oidc.Config{
+				ClientID:          aud,
+				SkipClientIDCheck: aud == "",
+				SkipExpiryCheck:   peerB(extra[1]),
+				SkipIssuerCheck:   peerB(extra[2]),
+				Now:               clock.Now,
+			})
+			svr.VerifAuthSetVerifier(auth.NewOidcAuthVerifier(cfg.Auth.AdditionalScopes, v))
 		}
 		go svr.Run(context.Background())
 		st.svr, st.port, st.kcpPort, st.quicPort = svr, cfg.BindPort, cfg.KCPBindPort, cfg.QUICBindPort
@@ -205,6 +260,9 @@ func (st *peerState) start(method string, hb, wc bool, extra ...string) {
 		st.owner = map[string]string{}
 		st.lastPing = map[string]int64{}
 		st.lp = map[string]int{}
+		st.tports = map[string]int{}
+		st.toks = map[string]string{}
+		st.clock = clock
 		return
 	}
 	if gw != nil {
@@ -217,12 +275,21 @@ func (st *peerState) connector(tr string) (client.Connector, error) {
 	if c, ok := st.connectors[tr]; ok {
 		return c, nil
 	}
+	c, err := st.newConnector(tr)
+	if err != nil {
+		return nil, err
+	}
+	st.connectors[tr] = c
+	return c, nil
+}
+
+func (st *peerState) newConnector(tr string) (client.Connector, error) {
 	cc := &v1.ClientCommonConfig{}
 	cc.ServerAddr = "127.0.0.1"
 	cc.ServerPort = st.port
 	cc.Transport.TLS.Enable = lo.ToPtr(false)
 	switch tr {
-	case "tcp":
+	case "tcp", "tcpn":
 		cc.Transport.Protocol = "tcp"
 	case "tls":
 		cc.Transport.Protocol = "tcp"
@@ -244,7 +311,6 @@ func (st *peerState) connector(tr string) (client.Connector, error) {
 	if err := c.Open(); err != nil {
 		return nil, err
 	}
-	st.connectors[tr] = c
 	return c, nil
 }
 
@@ -256,6 +322,18 @@ func (st *peerState) open(tr string) (net.Conn, error) {
 			return nil, err
 		}
 		return c2, nil
+	}
+	if tr == "tcpn" {
+		own, err := st.newConnector(tr)
+		if err != nil {
+			return nil, err
+		}
+		c, err := own.Connect()
+		if err != nil {
+			own.Close()
+			return nil, err
+		}
+		return peerOwnConn{Conn: c, own: own}, nil
 	}
 	c, err := st.connector(tr)
 	if err != nil {
@@ -407,9 +485,19 @@ func (st *peerState) doWork(cid, tr, rid string, ts int64, key string) string {
 		ch <- rd{m, err}
 	}()
 	deadline := time.Now().Add(peerTimeout)
+	pooled := false
 	for {
 		select {
 		case r := <-ch:
+			if pooled && r.err != nil {
+				// the reader has stopped (nothing else may be reading when a user connection is handed to this
+				// connection later); the connection stays pooled and open
+				st.conns[cid] = &peerConn{c: c, rw: c, runID: rid, pooled: true}
+				if before.AlwaysPass {
+					return "pooled:ap"
+				}
+				return "pooled"
+			}
 			if r.err != nil {
 				c.Close()
 				if peerIsTimeout(r.err) {
@@ -427,14 +515,16 @@ func (st *peerState) doWork(cid, tr, rid string, ts int64, key string) string {
 			return res
 		default:
 		}
+		if pooled {
+			_ = c.SetReadDeadline(time.Now()) // again: the reader may have set its own deadline in between
+			time.Sleep(50 * time.Microsecond)
+			continue
+		}
 		if known {
 			if now, ok := st.session(rid); ok && now.Pool > before.Pool {
-				_ = c.SetReadDeadline(time.Now()) // stop the reader; the connection stays pooled and open
-				st.conns[cid] = &peerConn{c: c, rw: c}
-				if before.AlwaysPass {
-					return "pooled:ap"
-				}
-				return "pooled"
+				pooled = true
+				_ = c.SetReadDeadline(time.Now()) // stop the reader
+				continue
 			}
 		}
 		if time.Now().After(deadline) {
@@ -484,6 +574,78 @@ func (st *peerState) doPing(cid string, ts int64, key string) string {
 		}
 		return "pong:ok:" + moved
 	}
+}
+
+// a user connection to the remote port of tcp proxy `name`.  frps takes a work connection out of the owning
+// session's pool (Control.GetWorkConn), announces the user on it with StartWorkConn and joins the two; the harness
+// listens on every work connection it knows to be pooled, echoes on the one that is chosen and reports which one
+// it was (relational: the model checks that it was in the pool of the session that owns the proxy).
+func (st *peerState) doUconn(name string) string {
+	port, ok := st.tports[name]
+	if !ok {
+		return "noproxy"
+	}
+	uc, err := net.DialTimeout("tcp", net.JoinHostPort("127.0.0.1", strconv.Itoa(port)), time.Second)
+	if err != nil {
+		return "noproxy"
+	}
+	defer uc.Close()
+	var cands []string
+	for cid, pc := range st.conns {
+		if pc.pooled {
+			cands = append(cands, cid)
+		}
+	}
+	sort.Strings(cands)
+	type got struct {
+		cid string
+		ok  bool
+	}
+	want := "hello-" + name + "\n"
+	ch := make(chan got, len(cands))
+	for _, cid := range cands {
+		c := st.conns[cid].c
+		_ = c.SetDeadline(time.Now().Add(2 * time.Second))
+		go func(cid string, c net.Conn) {
+			m, err := msg.ReadMsg(c)
+			sw, isStart := m.(*msg.StartWorkConn)
+			if err != nil || !isStart || sw.Error != "" {
+				ch <- got{cid, false}
+				return
+			}
+			// this is the frpc side of the proxy now: echo what the user sends
+			buf := make([]byte, len(want))
+			if _, err := io.ReadFull(c, buf); err == nil {
+				_, _ = c.Write(buf)
+			}
+			ch <- got{cid, true}
+		}(cid, c)
+	}
+	// with an empty pool frps asks the client for a connection, waits userConnTimeout (1 s) and closes the user
+	// connection; no pooled connection is touched then
+	_ = uc.SetDeadline(time.Now().Add(2 * time.Second))
+	_, _ = uc.Write([]byte(want))
+	back := make([]byte, len(want))
+	_, rerr := io.ReadFull(uc, back)
+	echoed := rerr == nil && string(back) == want
+	for _, cid := range cands {
+		_ = st.conns[cid].c.SetReadDeadline(time.Now()) // stop the readers that were not chosen
+	}
+	chosen := ""
+	for range cands {
+		if g := <-ch; g.ok {
+			chosen = g.cid
+		}
+	}
+	if chosen == "" {
+		return "e0"
+	}
+	st.conns[chosen].close()
+	delete(st.conns, chosen)
+	if !echoed {
+		return "e0:" + chosen
+	}
+	return "e1:" + chosen
 }
 
 func peerExec(tok []string) string {
@@ -613,13 +775,20 @@ func peerExec(tok []string) string {
 	case "ping":
 		return st.doPing(tok[1], int64(atoi(tok[2])), unhx(tok[3]))
 
-	case "nproxy":
+	case "uconn":
+		return st.doUconn(unhx(tok[1]))
+
+	case "nproxy", "tproxy":
 		cid, name := tok[1], unhx(tok[2])
 		pc := st.conns[cid]
 		if pc == nil || !pc.established {
 			return "gone"
 		}
-		if err := msg.WriteMsg(pc.rw, &msg.NewProxy{ProxyName: name, ProxyType: "stcp", Sk: "k"}); err != nil {
+		np := &msg.NewProxy{ProxyName: name, ProxyType: "stcp", Sk: "k"}
+		if tok[0] == "tproxy" {
+			np = &msg.NewProxy{ProxyName: name, ProxyType: "tcp", RemotePort: 0}
+		}
+		if err := msg.WriteMsg(pc.rw, np); err != nil {
 			pc.established = false
 			return "gone"
 		}
@@ -639,6 +808,13 @@ func peerExec(tok []string) string {
 			if r.Error != "" {
 				return "err"
 			}
+			if tok[0] == "tproxy" {
+				if i := strings.LastIndex(r.RemoteAddr, ":"); i >= 0 {
+					if p, err := strconv.Atoi(r.RemoteAddr[i+1:]); err == nil {
+						st.tports[name] = p
+					}
+				}
+			}
 			return "ok"
 		}
 
@@ -648,7 +824,7 @@ func peerExec(tok []string) string {
 		if pc == nil {
 			return "-"
 		}
-		pc.c.Close()
+		pc.close()
 		delete(st.conns, cid)
 		if pc.established && st.owner[pc.runID] == cid {
 			deadline := time.Now().Add(peerTimeout)
@@ -693,6 +869,16 @@ func peerExec(tok []string) string {
 
 // ------------------------------------------------------------------ generator
 
+const peerEpisodeKinds = 16
+
+type peerGenTok struct {
+	id       string
+	spec     string
+	accepted bool // by the server of this episode, at the time it was minted
+	short    bool // expires 3 s after it was minted
+	sub      string
+}
+
 type peerGen struct {
 	rng    *rand.Rand
 	emit   func(string)
@@ -709,6 +895,11 @@ type peerGen struct {
 	akSet            bool
 	akMode           string
 	tunnels          []string
+	hb, wc           bool // scopes of the running episode (classic and siege episodes)
+	uproxies         []string
+	tokSeq           int
+	pub              string // O / C episodes: the keys the provider publishes now
+	toks             []peerGenTok // O / C episodes: minted tokens that can be replayed
 }
 
 func (g *peerGen) cid() string { g.next++; return "c" + strconv.Itoa(g.next) }
@@ -861,13 +1052,22 @@ func (g *peerGen) someLogin() string {
 
 func peerGenRun(rng *rand.Rand, n int, emit func(string)) {
 	g := &peerGen{rng: rng, emit: emit}
-	cfgNo := rng.Intn(12)
+	cfgNo := rng.Intn(peerEpisodeKinds)
 	for g.n < n {
-		// one episode per configuration: every (method, scope subset) in turn; 2 of 12 episodes run the real
-		// OIDC verifier against the in-process provider, 2 of 12 the ssh tunnel gateway
-		k := cfgNo % 12
+		// one episode per configuration: every (method, scope subset) in turn; 2 of 16 episodes run the real
+		// OIDC verifier against the in-process provider, 2 the ssh tunnel gateway, 2 the go-oidc verifier with an
+		// injected clock, 2 are sieges
+		k := cfgNo % peerEpisodeKinds
 		cfgNo++
-		g.logins, g.named = nil, nil
+		g.logins, g.named, g.uproxies, g.toks = nil, nil, nil, nil
+		switch {
+		case k == 12 || k == 13:
+			g.clockEpisode(n, k == 13)
+			continue
+		case k == 14 || k == 15:
+			g.siegeEpisode(n, map[int]string{14: "t", 15: "o"}[k])
+			continue
+		}
 		switch {
 		case k == 8 || k == 9:
 			g.oidcEpisode(n, k == 9)
@@ -884,6 +1084,7 @@ func peerGenRun(rng *rand.Rand, n int, emit func(string)) {
 		if g.method == "o" {
 			hb, wc = (k>>1)&1, 1
 		}
+		g.hb, g.wc = hb == 1, wc == 1
 		g.op(fmt.Sprintf("reset %s %d %d", g.method, hb, wc))
 		g.login(true, "tcp")
 		g.dump()
@@ -891,6 +1092,182 @@ func peerGenRun(rng *rand.Rand, n int, emit func(string)) {
 			g.classicStep()
 			g.dump()
 		}
+	}
+}
+
+// ------------------------------------------------------------------ sieges: "refused attempts, HOWEVER MANY"
+//
+// A siege is a long run (64 … 111, now and then 256 … 319) of operations every one of which frps must refuse, aimed
+// at ONE live session (its run id / its control connection) or at run ids nobody holds, arriving as streams of one
+// connection, each on a connection of its own, or over all transports.  Before and after it the tables are dumped
+// (they must be equal), then the besieged session must still answer a heartbeat, take a valid work connection and
+// carry a user connection through its tcp proxy.
+
+const (
+	siegeWorkBadKey = iota // NewWorkConn naming the victim's run id with a key that is not accepted (NewWorkConns scope)
+	siegeWorkUnknown       // NewWorkConn (good and bad keys) naming run ids that are not in the table
+	siegeLogin             // Login with a bad key: no run id, the victim's run id, other ids; the flag claimed
+	siegeVisitor           // NewVisitorConn with a bad sign key for the victim / unknown run ids
+	siegePing              // Ping with a bad key on the victim's own control connection (HeartBeats scope)
+	siegeGarbage           // other first messages and malformed frames
+	siegeMixed             // all of the above
+	siegeKinds
+)
+
+// a key that is refused on a ping / work connection: besides the bad login keys, with the stub OIDC verifier a
+// well-formed token of a subject that never logged in
+func (g *peerGen) badPostKey(ts int64) (string, string) {
+	if g.method == "o" && g.rng.Intn(3) == 0 {
+		return "s:" + pick(g.rng, []string{"mallory", "dave", "Alice"}), peerKey(peerToken, ts)
+	}
+	return g.key(ts, false)
+}
+
+func (g *peerGen) siegeLen() int {
+	if g.rng.Intn(8) == 0 {
+		return 256 + g.rng.Intn(64)
+	}
+	return 64 + g.rng.Intn(48)
+}
+
+// is every operation of this kind refused under the scopes of the running episode
+func (g *peerGen) siegeApplies(kind int) bool {
+	switch kind {
+	case siegeWorkBadKey:
+		return g.wc
+	case siegePing:
+		return g.hb
+	}
+	return true
+}
+
+// victim = cid of the besieged session's login, vrid = its run id ("" = chosen by frps: named by reference only)
+func (g *peerGen) siege(kind int, victim, vrid string, count int) {
+	rng := g.rng
+	// 0: streams of one tcp connection; 1: a connection of its own for each attempt; 2: every transport
+	conns := rng.Intn(3)
+	tr := func() string {
+		switch conns {
+		case 0:
+			return "tcp"
+		case 1:
+			return "tcpn"
+		}
+		if rng.Intn(3) == 0 {
+			return "tcpn"
+		}
+		return g.tr()
+	}
+	netTr := func() string {
+		for {
+			if t := tr(); t != "int" {
+				return t
+			}
+		}
+	}
+	// refused logins: all naming the victim's run id, or a mix of none / the victim's / others
+	focus := rng.Intn(2) == 0
+	unknown := func() string {
+		return hx(pick(rng, []string{"nope", "", "0123456789abcdef", "v1x", "V1", "r9", "gone-" + strconv.Itoa(rng.Intn(4))}))
+	}
+	for j := 0; j < count; j++ {
+		k := kind
+		if k == siegeMixed {
+			for {
+				if k = rng.Intn(siegeMixed); g.siegeApplies(k) {
+					break
+				}
+			}
+		}
+		switch k {
+		case siegeWorkBadKey:
+			ts := g.ts()
+			key, exp := g.badPostKey(ts)
+			g.op(fmt.Sprintf("work %s %s @%s %d %s %s", g.cid(), netTr(), victim, ts, hx(key), hx(exp)))
+		case siegeWorkUnknown:
+			g.work(rng.Intn(2) == 0, tr(), unknown())
+		case siegeLogin:
+			cid := g.cid()
+			ts := g.ts()
+			key, exp := g.key(ts, false)
+			rid := vrid
+			if !focus {
+				rid = pick(rng, []string{"", "", vrid, vrid, "r1", "zz"})
+			}
+			g.op(fmt.Sprintf("login %s %s %s %d %s %s %d %d", cid, netTr(), hx(rid), ts, hx(key), hx(exp), min(rng.Intn(3), 1), pick(rng, []int{0, 1, 7})))
+		case siegeVisitor:
+			ref := unknown()
+			if rng.Intn(2) == 0 {
+				ref = "@" + victim
+			}
+			g.op(fmt.Sprintf("visit %s %s %s %s", g.cid(), tr(), ref, hx(pick(rng, []string{"p1", "u1", "ghost"}))))
+		case siegePing:
+			ts := g.ts()
+			key, exp := g.badPostKey(ts)
+			g.op(fmt.Sprintf("ping %s %d %s %s", victim, ts, hx(key), hx(exp)))
+		default:
+			g.op(fmt.Sprintf("first %s %s %s", g.cid(), tr(), pick(rng, peerFirstKinds)))
+		}
+	}
+}
+
+// the besieged session afterwards: heartbeat, a valid work connection, a user connection through its proxy
+func (g *peerGen) afterSiege(victim, uproxy string) {
+	g.dump()
+	for _, k := range g.rng.Perm(3) {
+		switch k {
+		case 0:
+			ts := g.ts()
+			key, exp := g.key(ts, true)
+			g.op(fmt.Sprintf("ping %s %d %s %s", victim, ts, hx(key), hx(exp)))
+		case 1:
+			g.work(true, pick(g.rng, []string{"tcp", "tcp", "tcpn"}), "@"+victim)
+		default:
+			if uproxy != "" {
+				g.op("uconn " + hx(uproxy))
+			}
+		}
+	}
+	g.dump()
+}
+
+// an episode that is nothing but sieges of every applicable kind against one session (token or stub-OIDC method)
+func (g *peerGen) siegeEpisode(n int, method string) {
+	rng := g.rng
+	g.method = method
+	g.hb, g.wc = rng.Intn(5) > 0, rng.Intn(5) > 0
+	b := func(x bool) int {
+		if x {
+			return 1
+		}
+		return 0
+	}
+	g.op(fmt.Sprintf("reset %s %d %d", method, b(g.hb), b(g.wc)))
+	// the victim: a run id of its own choosing (so that refused logins can name it), one pooled work connection,
+	// a tcp proxy; next to it a bystander session
+	victim := g.cid()
+	vrid := "v1"
+	ts := g.ts()
+	key, exp := g.key(ts, true)
+	g.op(fmt.Sprintf("login %s tcp %s %d %s %s 0 1", victim, hx(vrid), ts, hx(key), hx(exp)))
+	g.logins = append(g.logins, victim)
+	g.login(true, g.netTr())
+	g.op(fmt.Sprintf("tproxy %s %s", victim, hx("u1")))
+	g.op(fmt.Sprintf("nproxy %s %s", victim, hx("p1")))
+	g.work(true, "tcp", "@"+victim)
+	g.work(true, g.netTr(), "@"+victim)
+	g.dump()
+	kinds := rng.Perm(siegeKinds)
+	for _, kind := range kinds {
+		if g.n >= n {
+			return
+		}
+		if !g.siegeApplies(kind) {
+			continue
+		}
+		g.dump()
+		g.siege(kind, victim, vrid, g.siegeLen())
+		g.afterSiege(victim, "u1")
 	}
 }
 
@@ -922,11 +1299,30 @@ func (g *peerGen) classicStep() {
 			hex.EncodeToString([]byte("HELLO WORLD, THIS IS NOT YAMUX")),
 			"ffffffffffffffffffffffffffffffff",
 			"00090000000000010000000000000000"}))
-	case r < 95:
+	case r < 93:
 		// a burst of refused attempts of every kind, then the tables must be what they were
 		g.dump()
 		for j := 3 + rng.Intn(10); j > 0; j-- {
 			g.refusedAttempt()
+		}
+	case r < 96:
+		// a tcp proxy / a user connection through one (served by a pooled work connection of its session)
+		name := pick(rng, []string{"u1", "u2"})
+		if rng.Intn(2) == 0 {
+			g.op(fmt.Sprintf("tproxy %s %s", g.someLogin(), hx(name)))
+		} else {
+			g.op("uconn " + hx(name))
+		}
+	case r < 97 && len(g.logins) > 0:
+		// a siege in the middle of whatever state the episode is in
+		victim := g.logins[len(g.logins)-1]
+		for {
+			if kind := rng.Intn(siegeKinds); g.siegeApplies(kind) {
+				g.dump()
+				g.siege(kind, victim, pick(rng, []string{"r1", "r2"}), g.siegeLen())
+				g.afterSiege(victim, pick(rng, []string{"u1", ""}))
+				break
+			}
 		}
 	default:
 		// fill one session's pool to the brim and beyond
